@@ -6,15 +6,33 @@ import HcipyVerif.Model.Elements
 /-!
 Line-protocol front end of the C06 model.
 
-* `C06 effects NAME` → `ok safe=B retIsInput=B retShares=B writes=a,b|-` : the static verdict of the
+* `C06 effects NAME` → `ok safe=B retIsInput=B retShares=B writes=a,b|- safeGrid=B safeStokes=B retSharesGrid=B touches=copy,wrap,a,…|- created=N` :
+  (`touches`: what the run did to the input object, in order — `.copy()` of it, a wavefront wrapped around its
+  array, attribute writes; `created`: number of wavefront objects the run created.)
+  (`safeGrid`/`safeStokes`: the checker's verdict on `Effects.viewProg` — the program as it acts on the heap of
+  grid objects / Stokes vectors; `retSharesGrid`: does the result point to the input's grid object.) The static verdict of the
   checker on the named effect program of `Model/Elements.lean` and the observable footprint of
   running it (the footprint does not depend on the input value or on the meaning of the array
   operations; the driver runs it on a fixed input with a fixed interpretation).
+* `C06 effects-loop NAME N` → the same for `(loopProgramByName NAME).unroll N`: the program with `N` rounds of its loop
+  (scales of a multi-scale coronagraph beyond the first, elements of a layered atmosphere); theorem
+  `shipped_loop_programs_safeAll`.
 * `C06 internal NAME` → `ok safe=B memo=a,b|- scratch=c|-` : verdict of `safeInternal` on the named
   program with element-internal cells and the attribute names of its memo cells / scratch buffers.
-* `C06 denote TERM @ [re,im,re,im,…]` → `ok par=lin|conj|mixed [re,im,…]` : exact evaluation of an
-  operator term at Gaussian rationals. `TERM` is prefix notation over tokens:
-  `id | zero N | mul CLIST | mat NROWS CLIST | add T T | sub T T | comp T T | scale RE IM T | conj`.
+* `C06 history NAME EV…` → `ok safe=B cells=c,… TOK…` : runs `Effects.runHistory` / `Effects.callI` on the named
+  program with element-internal cells, from a fresh element, over the events `c:FIELD:WAVELENGTH:GRID` (a call
+  with a wavefront of these abstract values) and `s:I:X` (parameter `I` set to `X`).  One token per event: `s` for
+  a parameter change; for a call `h<bits>f<bit>` — `cellHit` of every memo cell of the program (in the order of
+  `cells=`) in the state `runHistory` reached before the call, and whether the result of `callI` in that state
+  equals the result of `callI` on a fresh element with the current parameters (`history_independent`).
+* `C06 denote-family FAMILY ARG… @ X1 @ X2 …` → `ok par=lin|conj|mixed expect=lin|conj Y1 Y2 …` : the term of the
+  family is built **by `Elements.familyTerm`** (the Lean schema the theorems `family_parity` /
+  `family_semilinear` speak about) from the arguments, and evaluated exactly at Gaussian dyadic rationals (`OpIR.CDy`: every float is one) on every
+  input vector. `ARG` is `v CLIST` (a vector), `m NROWS CLIST` (a matrix, row major) or `-` (an absent optional
+  part); `CLIST = [re,im,re,im,…]`. `expect` is `Family.conj` of the family.
+* `C06 denote-family-blocks R FAMILY ARG… @ X1 @ X2 …` → the same, with `OpIR.denoteBlocks`: every input is a polarised
+  field stored component after component (`R` = 2 or 4 components of equal length); the family's term is applied to
+  each component (`family_semilinear_blocks`).
 -/
 namespace HcipyVerif.Driver.C06
 open HcipyVerif.Proto HcipyVerif.OpIR HcipyVerif.Effects
@@ -22,67 +40,62 @@ open HcipyVerif.Proto HcipyVerif.OpIR HcipyVerif.Effects
 structure St where
   dummy : Unit := ()
 
-def pairUp : List Rat → Option (List CRat)
+/-- `n` or `n/d` with `d` a power of two (what a float is): no gcd, no normalisation. -/
+def parseDy? (s : String) : Option Dy :=
+  match s.splitOn "/" with
+  | [n] => (n.toInt?).map fun i => ⟨i, 0⟩
+  | [n, d] =>
+    match n.toInt?, d.toNat? with
+    | some i, some k =>
+      let e := Nat.log2 k
+      if k ≠ 0 && 2 ^ e = k then some ⟨i, e⟩ else none
+    | _, _ => none
+  | _ => none
+
+def pairUp : List Dy → Option (List CDy)
   | [] => some []
   | re :: im :: rest => (pairUp rest).map (⟨re, im⟩ :: ·)
   | [_] => none
 
-def parseCList? (s : String) : Option (List CRat) := (parseRatList? s).bind pairUp
+def parseCList? (s : String) : Option (List CDy) := (parseListWith? parseDy? s).bind pairUp
 
 def chunks {α} (k : Nat) (fuel : Nat) (l : List α) : List (List α) :=
   match fuel with
   | 0 => []
   | fuel + 1 => if l.isEmpty || k = 0 then [] else l.take k :: chunks k fuel (l.drop k)
 
-/-- Prefix parser; returns the term and the unread tokens. -/
-def parseTerm : Nat → List String → Option (Term CRat × List String)
-  | 0, _ => none
-  | _ + 1, [] => none
-  | fuel + 1, tok :: rest =>
-    match tok with
-    | "id" => some (.id, rest)
-    | "conj" => some (.conj, rest)
-    | "zero" =>
-      match rest with
-      | n :: rest => (parseNat? n).map fun n => (.zero n, rest)
-      | [] => none
-    | "mul" =>
-      match rest with
-      | l :: rest => (parseCList? l).map fun m => (.mulField m, rest)
-      | [] => none
-    | "mat" =>
-      match rest with
-      | n :: l :: rest =>
-        match parseNat? n, parseCList? l with
-        | some n, some flat =>
-          if n = 0 then (if flat.isEmpty then some (.matrix [], rest) else none)
-          else if flat.length % n ≠ 0 then none
-          else some (.matrix (chunks (flat.length / n) n flat), rest)
-        | _, _ => none
-      | _ => none
-    | "scale" =>
-      match rest with
-      | re :: im :: rest =>
-        match parseRat? re, parseRat? im, parseTerm fuel rest with
-        | some re, some im, some (t, rest) => some (.scale ⟨re, im⟩ t, rest)
-        | _, _, _ => none
-      | _ => none
-    | "add" =>
-      match parseTerm fuel rest with
-      | some (s, rest) => (parseTerm fuel rest).map fun (t, rest) => (.add s t, rest)
-      | none => none
-    | "sub" =>
-      match parseTerm fuel rest with
-      | some (s, rest) => (parseTerm fuel rest).map fun (t, rest) => (.sub s t, rest)
-      | none => none
-    | "comp" =>
-      match parseTerm fuel rest with
-      | some (s, rest) => (parseTerm fuel rest).map fun (t, rest) => (.comp s t, rest)
-      | none => none
-    | _ => none
+def parseMat? (n l : String) : Option (List (List CDy)) :=
+  match parseNat? n, parseCList? l with
+  | some n, some flat =>
+    if n = 0 then (if flat.isEmpty then some [] else none)
+    else if flat.length % n ≠ 0 then none
+    else some (chunks (flat.length / n) n flat)
+  | _, _ => none
 
-def showCList (l : List CRat) : String :=
-  "[" ++ ",".intercalate (l.map fun z => showRat z.re ++ "," ++ showRat z.im) ++ "]"
+/-- `v CLIST | m NROWS CLIST | -` …, up to the end of the token list. -/
+def parseArgs : Nat → List String → Option (List (HcipyVerif.Elements.Arg CDy))
+  | _, [] => some []
+  | 0, _ => none
+  | fuel + 1, "-" :: rest => (parseArgs fuel rest).map (.none :: ·)
+  | fuel + 1, "v" :: l :: rest =>
+    match parseCList? l, parseArgs fuel rest with
+    | some v, some as => some (.vec v :: as)
+    | _, _ => none
+  | fuel + 1, "m" :: n :: l :: rest =>
+    match parseMat? n l, parseArgs fuel rest with
+    | some A, some as => some (.mat A :: as)
+    | _, _ => none
+  | _, _ => none
+
+/-- split `a b @ c @ d` into `[a,b]` and `[[c],[d]]` -/
+def splitAt (toks : List String) : List (List String) :=
+  toks.foldr (fun t acc => if t == "@" then [] :: acc else
+    match acc with
+    | g :: gs => (t :: g) :: gs
+    | [] => [[t]]) [[]]
+
+def showCList (l : List CDy) : String :=
+  "[" ++ ",".intercalate (l.map fun z => showRat z.re.toRat ++ "," ++ showRat z.im.toRat) ++ "]"
 
 def showParity : Option Bool → String
   | some false => "lin" | some true => "conj" | none => "mixed"
@@ -94,27 +107,98 @@ def showAttr : Attr → String
 def demoSem (op : Nat) (args : List Int) : Int := args.foldl (fun acc a => 31 * acc + a) (op : Int)
 def demoIn : InVal := ⟨5, 3, 7, 11⟩
 
+/-- interpretation of the opaque operations for histories: polynomial hashes (injective enough) -/
+def histSem : ISem :=
+  { s1 := fun f a => 1000003 * (f : Int) + 31 * a + 7,
+    s2 := fun f a b => 1000003 * (f : Int) + 8191 * a + 131 * b + 11 }
+
+def parseEvent? (s : String) : Option Event :=
+  match s.splitOn ":" with
+  | ["c", f, w, g] =>
+    match parseInt? f, parseInt? w, parseInt? g with
+    | some f, some w, some g => some (.call ⟨f, w, 0, g⟩)
+    | _, _, _ => none
+  | ["s", i, x] =>
+    match parseNat? i, parseInt? x with
+    | some i, some x => some (.setParam i x)
+    | _, _ => none
+  | _ => none
+
+/-- token of event number `k` of the history `evs`, for program `p` -/
+def historyToken (p : IProg) (evs : List Event) (k : Nat) : String :=
+  match evs[k]? with
+  | some (.call v) =>
+    let E := runHistory histSem p (EState.fresh fun _ => 0) (evs.take k)
+    let hits := (memoCells p).map fun c => showBool (cellHit p E v c)
+    let same := (callI histSem p E v).1 == (callI histSem p (EState.fresh E.params) v).1
+    "h" ++ String.join hits ++ "f" ++ showBool same
+  | some (.setParam _ _) => "s"
+  | none => "?"
+
+/-- the answer of `effects` / `effects-loop` for program `p` -/
+def effectsAnswer (p : Prog) : String :=
+  let o := call demoSem p demoIn
+  let w := if o.writes.isEmpty then "-" else ",".intercalate (o.writes.map showAttr)
+  let sg := match retSharesAttr demoSem .grid p demoIn with
+    | some b => showBool b | none => "-"
+  let showTouch : Touch → String
+    | .copyInput => "copy" | .wrapInput => "wrap" | .write a => showAttr a
+  let t := if o.touches.isEmpty then "-" else ",".intercalate (o.touches.map showTouch)
+  s!"ok safe={showBool (safe p)} retIsInput={showBool o.retIsInput} retShares={showBool o.retSharesBuf} writes={w} safeGrid={showBool (safeAttr .grid p)} safeStokes={showBool (safeAttr .stokes p)} retSharesGrid={sg} touches={t} created={o.created}"
+
 def step (st : St) : List String → St × String
   | ["effects", name] =>
     match HcipyVerif.Elements.programByName name with
-    | some p =>
-      let o := call demoSem p demoIn
-      let w := if o.writes.isEmpty then "-" else ",".intercalate (o.writes.map showAttr)
-      (st, s!"ok safe={showBool (safe p)} retIsInput={showBool o.retIsInput} retShares={showBool o.retSharesBuf} writes={w}")
+    | some p => (st, effectsAnswer p)
     | none => (st, "bad-op")
+  | ["effects-loop", name, n] =>
+    match HcipyVerif.Elements.loopProgramByName name, parseNat? n with
+    | some L, some n => (st, effectsAnswer (L.unroll n))
+    | _, _ => (st, "bad-op")
   | ["internal", name] =>
     match HcipyVerif.Elements.internalByName name with
     | some (p, memo, scratch) =>
       let sh := fun (l : List String) => if l.isEmpty then "-" else ",".intercalate l
       (st, s!"ok safe={showBool (safeInternal p)} memo={sh memo} scratch={sh scratch}")
     | none => (st, "bad-op")
-  | "denote" :: rest =>
-    match parseTerm (rest.length + 1) rest with
-    | some (t, ["@", v]) =>
-      match parseCList? v with
-      | some x => (st, s!"ok par={showParity (parity t)} {showCList (denote CRat.conj t x)}")
-      | none => (st, "bad-op")
-    | _ => (st, "bad-op")
+  | "history" :: name :: evToks =>
+    match HcipyVerif.Elements.internalByName name, evToks.mapM parseEvent? with
+    | some (p, _, _), some evs =>
+      let cells := memoCells p
+      let cs := if cells.isEmpty then "-" else ",".intercalate (cells.map toString)
+      let toks := (List.range evs.length).map (historyToken p evs)
+      (st, s!"ok safe={showBool (safeInternal p)} cells={cs} {" ".intercalate toks}")
+    | _, _ => (st, "bad-op")
+  | "denote-family" :: fam :: rest =>
+    match HcipyVerif.Elements.Family.ofString? fam, splitAt rest with
+    | some f, argToks :: inputs =>
+      match parseArgs (argToks.length + 1) argToks, inputs.mapM (fun g => match g with
+          | [v] => parseCList? v
+          | _ => none) with
+      | some args, some xs =>
+        if xs.isEmpty then (st, "bad-op") else
+        match HcipyVerif.Elements.familyTerm f args with
+        | some t =>
+          let outs := xs.map fun x => showCList (denote CDy.conj t x)
+          (st, s!"ok par={showParity (parity t)} expect={showParity (some f.conj)} {" ".intercalate outs}")
+        | none => (st, "bad-args")
+      | _, _ => (st, "bad-op")
+    | _, _ => (st, "bad-op")
+  | "denote-family-blocks" :: reps :: fam :: rest =>
+    match parseNat? reps, HcipyVerif.Elements.Family.ofString? fam, splitAt rest with
+    | some r, some f, argToks :: inputs =>
+      match parseArgs (argToks.length + 1) argToks, inputs.mapM (fun g => match g with
+          | [v] => parseCList? v
+          | _ => none) with
+      | some args, some xs =>
+        if xs.isEmpty || r = 0 || xs.any (fun x => x.length % r != 0) then (st, "bad-op") else
+        match HcipyVerif.Elements.familyTerm f args with
+        | some t =>
+          let outs := xs.map fun x => showCList (denoteBlocks CDy.conj t (x.length / r) r x)
+          (st, s!"ok par={showParity (parity t)} expect={showParity (some f.conj)} {" ".intercalate outs}")
+        | none => (st, "bad-args")
+      | _, _ => (st, "bad-op")
+    | _, _, _ => (st, "bad-op")
   | _ => (st, "bad-op")
 
 end HcipyVerif.Driver.C06
